@@ -931,7 +931,7 @@ def report_violations(res, viol, root):
       continue
     if reported >= 3:
       continue
-    small = shrink_case(c, fp.replace("UNEXPECTED:", ""), os.path.join(root, "shrink")) if reported == 0 else c
+    small = shrink_case(c, fp.replace("UNEXPECTED:", ""), os.path.join(root, "shrink"), budget_s=20.0 if reported == 0 else 5.0)
     res.violation(fp, msg, {"case": small, "original": c if small != c else None})
     reported += 1
   res.extra["violation_fingerprints"] = {fp: sum(1 for f, _, _ in viol if f == fp) for fp in by}
@@ -1032,12 +1032,17 @@ def run(res):
                                if thorough else "<=4 modules, kinds {Local,System}, all requested subsets")
     res.extra["sweep_wall_s"] = round(time.time() - t0, 1)
     # ---- adversarial names: text, parse_build, ninja binary, reader
+    t1 = time.time()
     viol += text_leg(res, exe, root, common.rng(res.seed, "c19", "text"), 400 if thorough else 60)
+    res.extra["text_leg_wall_s"] = round(time.time() - t1, 1); t1 = time.time()
     # ---- lexer model vs port vs ninja binary
     lexer_leg(res, exe, root, common.rng(res.seed, "c19", "lex"), 1500 if thorough else 220, 600 if thorough else 120)
+    res.extra["lexer_leg_wall_s"] = round(time.time() - t1, 1); t1 = time.time()
     # ---- deps_from_import_graph
     viol += dfig_leg(res, exe, root, common.rng(res.seed, "c19", "dfig"), 1500 if thorough else 200, 40 if thorough else 6)
+    res.extra["dfig_leg_wall_s"] = round(time.time() - t1, 1); t1 = time.time()
     report_violations(res, viol, root)
+    res.extra["shrink_report_wall_s"] = round(time.time() - t1, 1)
   finally:
     shutil.rmtree(root, ignore_errors=True)
   if thorough:
